@@ -120,6 +120,7 @@ pub struct Outcome {
     pub total: usize,
     pub done: bool,
     pub finished: bool, // false: the checker did not stop within the time box
+    pub panicked: bool, // the checker API panicked (e.g. discoveries() on an empty path)
 }
 
 #[derive(Clone, Debug, Default)]
@@ -135,14 +136,22 @@ fn path_states(p: Path<u8, u8>) -> Vec<u8> { p.into_states() }
 
 /// Runs the real checker. On-demand checkers and simulations are polled with a time box instead of
 /// joined (on-demand `join` never returns; a simulation only stops on a finish/target condition).
+/// `run_inner` with panics of the checker API (e.g. `discoveries()`) turned into `panicked = true`.
 pub fn run(g: &G, strat: Strategy, o: &Opts) -> Outcome {
+    match std::panic::catch_unwind(std::panic::AssertUnwindSafe(|| run_inner(g, strat, o))) {
+        Ok(out) => out,
+        Err(_) => Outcome { visited: vec![], visited_paths: vec![], discoveries: Default::default(), unique: 0, total: 0, done: false, finished: false, panicked: true },
+    }
+}
+
+fn run_inner(g: &G, strat: Strategy, o: &Opts) -> Outcome {
     let (prec, pacc) = PathRecorder::new_with_accessor();
     let mut b = g.clone().checker().threads(o.threads.max(1)).visitor(prec);
     if let Some(d) = o.max_depth { b = b.target_max_depth(d); }
     if let Some(t) = o.target_states { b = b.target_state_count(t); }
     if let Some(f) = &o.finish_when { b = b.finish_when(f.clone()); }
     fn collect(c: &dyn DynChecker, finished: bool) -> Outcome {
-        Outcome { visited: vec![], visited_paths: vec![], discoveries: c.disc(), unique: c.uniq(), total: c.total(), done: c.done(), finished }
+        Outcome { visited: vec![], visited_paths: vec![], discoveries: c.disc(), unique: c.uniq(), total: c.total(), done: c.done(), finished, panicked: false }
     }
     let mut out = match strat {
         Strategy::Bfs => { let c = b.spawn_bfs().join(); collect(&c, true) }
